@@ -180,7 +180,18 @@ static void timer_cb(uv_timer_t* timer) {
 
   ctx = container_of(timer, struct poll_ctx, timer_handle);
   assert(ctx->parent_handle != NULL);
-  assert(ctx->parent_handle->poll_ctx == ctx);
+
+  /* uv_fs_poll_stop() (or stop + start) may have been called from another
+   * timer's callback in this very uv__run_timers() pass, after this timer was
+   * moved to the ready queue: it was inactive then and was left alone.  Do not
+   * stat on behalf of a stopped or superseded context, tear it down.
+   */
+  if (!uv_is_active((uv_handle_t*)ctx->parent_handle) ||
+      ctx->parent_handle->poll_ctx != ctx) {
+    uv_close((uv_handle_t*)timer, timer_close_cb);
+    return;
+  }
+
   ctx->start_time = uv_now(ctx->loop);
 
   if (uv_fs_stat(ctx->loop, &ctx->fs_req, ctx->path, poll_cb))
